@@ -1,5 +1,6 @@
 (** C07 — linting is pure, deterministic and independent of scheduling. Pinned statements only. *)
-From Sq Require Import Base.Bytes Sched.Model Sched.Proofs Sched.PureModel Sched.PureProofs.
+From Sq Require Import Base.Bytes Sched.Model Sched.Proofs Sched.PureModel Sched.PureProofs
+  Sched.VerdictModel Sched.VerdictProofs.
 From Coq Require Import Permutation.
 
 (** Lint mode ([fix = false]) runs exactly one pass of the main phase and hands back the tree it was
@@ -68,3 +69,28 @@ Theorem C07_batch_independent : forall res lint ign1 ign2 exps1 exps2 o1 o2 bs1 
          /\ filter (fun e : N * res => fst e =? p) (concat bs2) = [e] /\ e = (p, lint p).
 Proof. exact batch_independent. Qed.
 Print Assumptions C07_batch_independent.
+
+(** The outcome of an invocation as the formatter accumulates it ([has_fail] = exit status of
+    [sqruff lint], number of files reported): it does not depend on the order in which the worker
+    threads dispatch their files; it is "some file has a failing violation", each file counted once,
+    at every non-negative verbosity; a failing file makes the batch fail whatever else is in it. *)
+Theorem C07_verdict_order_independent : forall v o1 o2,
+  Permutation o1 o2 -> dispatch_all v o1 = dispatch_all v o2.
+Proof. exact verdict_order_independent. Qed.
+Print Assumptions C07_verdict_order_independent.
+
+Theorem C07_verdict_is_any_fail : forall v order, (0 <= v)%Z ->
+  dispatch_all v order = (any_fail order, N.of_nat (length order)).
+Proof. exact verdict_spec. Qed.
+Print Assumptions C07_verdict_is_any_fail.
+
+Theorem C07_verdict_batch_independent : forall v o1 o2 c,
+  (0 <= v)%Z -> In c o1 -> In c o2 -> 0 < fst c ->
+  fst (dispatch_all v o1) = true /\ fst (dispatch_all v o2) = true.
+Proof. exact verdict_batch_independent. Qed.
+Print Assumptions C07_verdict_batch_independent.
+
+Theorem C07_verdict_monotone : forall v a b,
+  fst (dispatch_all v a) = true -> fst (dispatch_all v (a ++ b)) = true.
+Proof. exact verdict_monotone. Qed.
+Print Assumptions C07_verdict_monotone.
